@@ -63,6 +63,57 @@ func runQuorum(out *TraceWriter, full bool, lo, hi int) {
 	}
 }
 
+// seqWorld: the validator list of each height is whatever the sequence says (the application's validator set changes).
+type seqWorld struct{ counts map[uint32]int }
+
+func (w *seqWorld) ValidatorsAt(h uint32) []int {
+	v := make([]int, w.counts[h])
+	for i := range v {
+		v[i] = i
+	}
+	if len(v) > 0 {
+		v[int(h)%len(v)] = 500 // the node under test is a validator, at a position that moves
+	}
+	return v
+}
+
+// runQuorumSeq (C06): "on a context initialised through Start with N validators and a chosen height" - and re-initialised through
+// Reset with ANOTHER validator count: a real DBFT instance is started and taken through a sequence of heights whose validator
+// lists grow and shrink; after every (re)initialisation the real N/F/M/GetPrimaryIndex are read. Rows are "pt" rows whose N is
+// the validator count the application reported for that height.
+func runQuorumSeq(out *TraceWriter) {
+	seqs := [][]int{{7, 4, 10, 1, 4, 7, 6, 5, 3, 2, 13, 4}, {4, 7, 4, 1, 2, 3, 21, 5}, {10, 9, 8, 7, 6, 5, 4, 3, 2, 1, 2, 4, 8, 16, 31}, {1, 64, 1, 33, 4}}
+	for si, seq := range seqs {
+		for _, h0 := range []uint32{0, 5, 65534} {
+			w := &seqWorld{counts: map[uint32]int{}}
+			for k, c := range seq {
+				w.counts[h0+uint32(k)+1] = c
+			}
+			clk := &Clock{Now: 1000}
+			n := NewNode(500, NodeCfg{Tpb: 1000, Inc: 1, AmevH: -1}, w, clk)
+			n.Broadcast = func(n *Node, p *Payload) {}
+			n.RMsgOrder = func(k int) []int { r := make([]int, k); for i := range r { r[i] = i }; return r }
+			n.Height = h0
+			n.TipTs = 900
+			if h0 > 0 {
+				n.TipHash = H(fmt.Sprintf("T:%d", h0))
+			}
+			for k, c := range seq {
+				if k == 0 {
+					n.Start()
+				} else {
+					n.Height++ // the application's ledger moved on (a block fetched from a peer): Reset re-reads everything
+					n.TipHash = H(fmt.Sprintf("T:%d", n.Height))
+					n.Reset()
+				}
+				for _, v := range []byte{0, 1, 2, 3, 7, byte(si)} {
+					out.Write(qRow{K: "pt", N: c, HD: digits(n.D.BlockIndex), V: int(v), F: n.D.F(), M: n.D.M(), P: int(n.D.GetPrimaryIndex(v)), PS: []int{}})
+				}
+			}
+		}
+	}
+}
+
 // runProposal (C15): a real primary proposes over a grid of previous-block
 // timestamps, clock readings (behind, equal, ahead, unaligned, stepping back
 // between heights), timestamp increments and pools.
